@@ -425,6 +425,8 @@ func runC05(r *Run) {
 	}
 	r.Expect("C05.6", 20, "sibling pairs")
 	// replayed commit certificates are votes too: whose keys verify them is C01.4e
+	r.Rule("C05.10", "sign bytes kept by a signature proof are not aliased to a reused buffer (a proof filed under one block hash must not verify signatures made for another)")
+	bufferAliasing(r, "C05.10")
 	r.Rule("C05.9", "a commit proof the node stores keeps verifying for the height it is filed under: the proof saved with a committed header is a private copy, not a map the kernel's recycled views clear and refill for later heights")
 	storedCommitProofIsPrivate(r, "C05.9")
 	r.Borrow(runC01, "C01", "C01.4e", "C05.8", "signatures of a replayed commit are verified under the voting view's validator keys, not keys carried by the replayed header")
